@@ -150,7 +150,15 @@ def judge(prog, term, v, res, case, label="v"):
     res.outcomes.add(key)
     if not o1.ok:
         if label == "v":  # a valid value of exactly the annotated classes must marshal (also C01); subclass variants may be refused
-            pass
+            def fails(t, x):
+                _, mt, _ = E.routines_for(t, ns)
+                if not mt.ok:
+                    return "build"
+                return None if call(mt.val, x).ok else "raises"
+
+            tmin, vmin, _ = E.localize(ns, term, v, fails) or (term, v, None)
+            res.violation(f"C06/no-output/{tmin.sig()}/raises:{o1.excname}/{E.feature(vmin)}",
+                          f"marshal({short(vmin, 80)}, t={tmin.src}) raises {o1.exc!r} for a valid value: there is no JSON-only output at all (found in {term.src})", case)
         return
     res.nontrivial.add(key)
     out = o1.val
